@@ -121,9 +121,83 @@ def is_ok(p):
 
 # ----------------------------------------------------------------------------------- writer
 
+def resume_loop(e):
+    """A `loop` effect that is std's write_all written out by hand — every continuing iteration performs exactly one
+    `write(w, buf)` on the loop variable `buf`, continues with `buf[n..]` for the returned count n, and the loop is
+    left normally only when `buf` is empty — delivers the initial `buf` completely: (sink, initial buffer) or None."""
+    if e.get("k") != "loop":
+        return None
+    init = e.get("init") or {}
+    cont = [p for p in e.get("paths", []) if p["out"][0] in ("val", "cont")]
+    brk = [p for p in e.get("paths", []) if p["out"][0] == "brk"]
+    found = None
+    for p in cont:
+        ws = [x for x in p["eff"] if x["k"] == "call" and x["args"][0][1].startswith("std::io::Write::")]
+        if len(ws) != 1 or ws[0]["args"][0][1] != "std::io::Write::write":
+            return None
+        buf = ws[0]["args"][2]
+        if buf not in init:
+            return None
+        nxt = (p.get("next") or {}).get(buf)
+        want = ("app", "index", (buf, ("ctor", "std::ops::RangeFrom", None, (("start", ("payload", ws[0]["res"])),))))
+        if nxt != want:
+            return None
+        if found is not None and found != (ws[0]["args"][1], buf):
+            return None
+        found = (ws[0]["args"][1], buf)
+    if found is None:
+        return None
+    sink, buf = found
+    empty = ("app", "is_empty", (buf,))
+    for p in brk:
+        # left only when the buffer is empty, and without writing
+        if any(x["k"] == "call" and x["args"][0][1].startswith("std::io::Write::") for x in p["eff"]):
+            return None
+        conds = [(x["args"][0], x["args"][1]) for x in p["eff"] if x["k"] == "assume"]
+        if not any((c == empty and v == lit(True)) or (c == ("app", "not", (empty,)) and v == lit(False)) for c, v in conds):
+            return None
+    if not brk:
+        return None
+    return sink, init[buf]
+
+
+def settle_partial_writes(effs):
+    """Rewrite provably resumed partial writes into the complete write they amount to (so that the layout is read off
+    what reaches the sink): a recognised resume loop becomes write_all(initial buffer); a straight-line
+    `n = write(S)` followed by the writes that spell S[n..] (c08_account) becomes write_all(S)."""
+    from . import c08_account as AC
+    out = []
+    for e in effs:
+        if e["k"] == "loop" and not e.get("taken_exit"):
+            r = resume_loop(e)
+            if r is not None:
+                out.append({"k": "call", "args": (lit("std::io::Write::write_all"), r[0], r[1]), "res": None, "at": e["at"], "settled": "resume loop"})
+                continue
+        out.append(e)
+    if any(e["k"] == "call" and e["args"][0][1] in AC.PARTIAL for e in out) and AC.account_path(out) is None:
+        res = []
+        owed = 0
+        for e in out:
+            if e["k"] == "call" and e["args"][0][1] in AC.PARTIAL:
+                parts = AC._parts(e["args"][2])
+                for p_ in parts:
+                    res.append({"k": "call", "args": (lit("std::io::Write::write_all"), e["args"][1], p_), "res": e.get("res"), "at": e["at"], "settled": "accounted"})
+                owed = "pending"
+                continue
+            if owed == "pending" and e["k"] == "call" and e["args"][0][1] in AC.COMPLETE:
+                # part of the owed remainder: already represented by the settled write above
+                seg = AC._segment(e["args"][2])
+                if seg is not None and any(seg[0] == AC._strip(x["args"][2]) for x in res if x.get("settled") == "accounted"):
+                    continue
+            res.append(e)
+        return res
+    return out
+
+
 def w_items(effs):
     """effects → write items"""
     out = []
+    effs = settle_partial_writes(effs)
     for e in effs:
         k = e["k"]
         if k == "call" and e["args"][0][1] in ("std::io::Write::write_all", "std::io::Write::write"):
